@@ -42,7 +42,7 @@ def run_op(cfg: Dict[str, Any]) -> Dict[str, Any]:
            (f"/page{cfg['op_page']}" if 'op_page' in cfg else '') + ('/signals' if signals else '')) + ('/io-fail' if io_fail else '') + ('/alloc-fail' if alloc_fail else '')
     W = 2 * 64 + 16 if w == 64 else 80
     E = Engine(W, timeout_ms=cfg.get('timeout_ms', 240_000), max_paths=cfg.get('max_paths', 20000))
-    E.fast_ms = cfg.get('fast_ms', 4000)
+    E.fast_ms = cfg.get('fast_ms', 1000)
     module = env.load_module()
     samples: List[Any] = []
     mem_viol: List[Dict[str, Any]] = []
